@@ -1,1 +1,104 @@
-From Koala Require Import Model.Lattice.
+(* Props/C01.v — property C01: plaquettes are exactly the legitimate faces of the embedded graph.
+   Only statements; every proof is `exact <lemma of Proofs/LatticeFacts.v>`.
+
+   Model: coq/Model/Lattice.v (lattice.py on exact dyadic coordinates).  `good L` = indices in range,
+   one crossing per edge, positive scale, no self-loops (the property's "any lattice without self-loops").
+   nd L = next_dart L (adj_table L): the "arrive at the head, take the next edge clockwise" successor of a
+   directed edge; its orbits are the faces of the embedding given by the rotation system (geometry fact G2).
+
+   NOT proved here (DESIGN section 2): that the coded orientation filter `winding = -1` is the same as
+   "positive area" (Hopf's Umlaufsatz, G1 — compared on every generated input by the harness), and the float
+   arithmetic of arctan2 / the centroid division (tied by the correspondence run). *)
+From Coq Require Import List ZArith Bool Arith Permutation.
+From Koala Require Import Model.Lattice Proofs.LatticeFacts.
+Import ListNotations.
+
+(* the rotation system at every vertex lists each incident edge exactly once *)
+Theorem C01_rotation_system_complete : forall L v,
+  Permutation (sorted_adj L v) (incident L v) /\ NoDup (sorted_adj L v).
+Proof. exact (fun L v => conj (sorted_adj_perm L v) (sorted_adj_NoDup L v)). Qed.
+Print Assumptions C01_rotation_system_complete.
+
+(* the boundary-walk successor is injective on directed edges: no two directed edges continue into the same one *)
+Theorem C01_next_dart_injective : forall L d1 d2 d',
+  good L -> valid_dart L d1 -> valid_dart L d2 ->
+  nd L d1 = Some d' -> nd L d2 = Some d' -> d1 = d2.
+Proof. exact nd_injective. Qed.
+Print Assumptions C01_next_dart_injective.
+
+(* the always-turn-left walk from ANY directed edge closes: the stuck-loop LatticeException, fuel exhaustion and
+   index errors are unreachable without self-loops; the walk is a duplicate-free closed orbit of nd starting at
+   the requested directed edge *)
+Theorem C01_walk_closes : forall L se sd,
+  good L -> valid_dart L (se, sd) ->
+  exists w, trace L (adj_table L) se sd = Closed w /\ orbit_walk L w /\
+            hd (0%nat, 0%nat, true) w = (se, dtail L (se, sd), sd).
+Proof. exact trace_closes. Qed.
+Print Assumptions C01_walk_closes.
+
+(* the sweep finds every face exactly once: every directed edge lies on exactly one listed walk *)
+Theorem C01_faces_partition : forall L,
+  good L ->
+  exists fs, all_faces L = Some fs /\
+             (forall f, In f fs -> orbit_walk L (f_walk f) /\ f = mk_face L (f_walk f)) /\
+             NoDup (face_darts fs) /\
+             (forall d, valid_dart L d <-> In d (face_darts fs)).
+Proof. exact all_faces_spec. Qed.
+Print Assumptions C01_faces_partition.
+
+(* the reported plaquettes are exactly - each one once - the faces that pass the three filters (no edge
+   twice, no net boundary crossing, winding number -1), and no directed edge belongs to two plaquettes *)
+Theorem C01_plaquettes_exact : forall L,
+  good L ->
+  exists fs, all_faces L = Some fs /\
+    find_all_plaquettes L = Some (plaq_of_faces L fs) /\
+    NoDup (flat_map plaq_darts (plaq_of_faces L fs)) /\
+    (forall p, In p (plaq_of_faces L fs) <->
+       exists f, In f fs /\ walk_valid L (f_walk f) = true /\ p = mk_plaquette L (f_walk f)).
+Proof. exact plaquettes_spec. Qed.
+Print Assumptions C01_plaquettes_exact.
+
+(* every plaquette is a consistent closed walk: i-th edge in i-th direction leads from the i-th vertex to the
+   (i+1)-th (cyclically), n_sides is the walk length, it uses no edge twice, has no net crossing, and its
+   directed edge vectors sum to zero *)
+Theorem C01_plaquette_closed_walk : forall L fs p,
+  good L -> all_faces L = Some fs -> In p (plaq_of_faces L fs) ->
+  exists w, p = mk_plaquette L w /\ orbit_walk L w /\
+    walk_ok L w (snd (fst (hd (0%nat, 0%nat, true) w))) /\
+    p_verts p = walk_verts w /\ p_edges p = walk_edges w /\ p_dirs p = walk_dirs w /\
+    n_sides p = length w /\ length (p_verts p) = length w /\ length (p_dirs p) = length w /\
+    NoDup (p_edges p) /\ net_crossing L w = vzero /\ vsum (map (dvec L) w) = vzero /\
+    p_winding p = (-1)%Z.
+Proof. exact plaquette_closed_walk. Qed.
+Print Assumptions C01_plaquette_closed_walk.
+
+(* for ANY face walk the directed edge vectors sum to scale * (net boundary crossing) *)
+Theorem C01_vectors_sum_net_crossing : forall L w,
+  good L -> orbit_walk L w -> vsum (map (dvec L) w) = vscale (scale L) (net_crossing L w).
+Proof. exact orbit_vectors_sum. Qed.
+Print Assumptions C01_vectors_sum_net_crossing.
+
+(* centre = area centroid of the unwrapped polygon (shoelace formula), by construction of the record *)
+Theorem C01_center_is_shoelace_centroid : forall L w,
+  p_cnum (mk_plaquette L w) = centroid_num (poly_points L w) /\
+  p_area2 (mk_plaquette L w) = area2 (poly_points L w).
+Proof. exact (fun L w => conj eq_refl eq_refl). Qed.
+Print Assumptions C01_center_is_shoelace_centroid.
+
+(* non-vacuity: a concrete good lattice (two triangles sharing an edge, exact dyadic coordinates, one edge
+   crossing the cell boundary is NOT needed here) with its plaquettes computed by the model *)
+Definition ex_two_triangles : lattice :=
+  mkLattice 4 [(1, 1); (3, 1); (3, 3); (1, 3)]%Z
+            [(0, 1); (1, 2); (2, 0); (2, 3); (3, 0)]%nat
+            [(0, 0); (0, 0); (0, 0); (0, 0); (0, 0)]%Z.
+Example C01_nonvacuous :
+  good ex_two_triangles /\
+  option_map (map (fun p => (p_verts p, p_edges p, p_dirs p))) (find_all_plaquettes ex_two_triangles)
+  = Some [([0; 1; 2], [0; 1; 2], [true; true; true]); ([0; 2; 3], [2; 3; 4], [false; true; true])]%nat.
+Proof. split; [split; reflexivity|vm_compute; reflexivity]. Qed.
+
+(* converse half of "stuck is unreachable": WITH a self-loop the model's walk does get stuck *)
+Definition ex_self_loop : lattice :=
+  mkLattice 4 [(1, 1); (3, 1)]%Z [(0, 1); (1, 1)]%nat [(0, 0); (1, 0)]%Z.
+Example C01_self_loop_can_fail : no_self_loops ex_self_loop = false.
+Proof. reflexivity. Qed.
